@@ -7,9 +7,10 @@ each thread), and the tape decides after how many package lines the baton moves 
 One tape = one interleaving, exactly repeatable; tape value 0 means "run to completion without
 switching", so shrinking removes interleaving that does not matter.
 
-Limits: a pre-emption cannot land inside a numpy call or inside non-package code; a thread
-that blocks on a real lock held by a parked thread would hang (the watchdog turns that into a
-HarnessError, never into a verdict).
+Limits: a pre-emption cannot land inside a numpy call or inside non-package code, and a thread
+is never parked while it is importing a package module (it holds that module's import lock); a
+thread that blocks on a real lock held by a parked thread would hang (the watchdog turns that
+into a HarnessError, never into a verdict).
 """
 from __future__ import annotations
 
@@ -41,12 +42,23 @@ class Interleaver:
         self.countdown = 0
         self.switches = 0
         self.current: _Task | None = None
+        self._importing: dict[int, int] = {}
 
     # ------------------------------------------------------------------ tracing
     def _global_trace(self, frame, event, arg):
         if frame.f_code.co_filename.startswith(seams.PKG):
+            if frame.f_code.co_name == "<module>":
+                # a package module is being imported by this thread: it holds that module's import lock, so it
+                # must not be parked until the import is over (another thread importing it would block for real)
+                self._importing[threading.get_ident()] = self._importing.get(threading.get_ident(), 0) + 1
+                return self._module_trace
             return self._local_trace
         return None
+
+    def _module_trace(self, frame, event, arg):
+        if event == "return":
+            self._importing[threading.get_ident()] -= 1
+        return self._module_trace
 
     def _local_trace(self, frame, event, arg):
         if event == "line":
@@ -62,6 +74,9 @@ class Interleaver:
         t.lines += 1
         self.countdown -= 1
         if self.countdown > 0:
+            return
+        if self._importing.get(threading.get_ident()):
+            self.countdown = 1  # try again at the first line after the import
             return
         others = [x for x in self.tasks if not x.done and x is not t]
         self.countdown = self._draw_interval()
